@@ -1306,6 +1306,39 @@ theorem serModelDev_named {w : World} {m : MId} {protos : List (List PCfg)}
       · cases hq
       · assumption
 
+/-- the main graph and every function: each with a scope stack of its own -/
+theorem deserRoots_spec {w : World} {ms : ModelS} (ctx : RTCtx w ms) (f : Nat) :
+    ∀ (gs : List GId) (st st' : DSt) (res : List GId), (∀ g ∈ gs, g ∈ ms.graphs) →
+    deserRoots w false (rtKnown w ms) f st gs = some (st', res) → DInv w ms st →
+    DInv w ms st' ∧ st'.srcNodes = st.srcNodes ++ (gs.map (allNodesF w f)).flatten ∧ VExt st.w st'.w := by
+  intro gs
+  induction gs with
+  | nil =>
+    intro st st' res _ hc hinv
+    simp only [deserRoots, Option.some.injEq, Prod.mk.injEq] at hc
+    obtain ⟨rfl, _⟩ := hc
+    exact ⟨hinv, by simp, VExt.refl _⟩
+  | cons g rest ih =>
+    intro st st' res hgs hc hinv
+    simp only [deserRoots] at hc
+    cases hr : deserGraphF w false (rtKnown w ms) f st [] g with
+    | none => simp [hr] at hc
+    | some r =>
+      obtain ⟨st1, g1⟩ := r
+      simp only [hr] at hc
+      cases hr2 : deserRoots w false (rtKnown w ms) f st1 rest with
+      | none => simp [hr2] at hc
+      | some r2 =>
+        obtain ⟨st2, res2⟩ := r2
+        simp only [hr2, Option.map_some, Option.some.injEq, Prod.mk.injEq] at hc
+        obtain ⟨rfl, _⟩ := hc
+        have hsc0 : ScopeOK w (modelValues w ms) st.w [] := ⟨by simp, by simp, by simp, by simp⟩
+        obtain ⟨b1, e1⟩ := deserGraphF_spec ctx f st [] g st1 g1 (hgs g (by simp)) hr hinv hsc0
+        have hsrc := deserGraphF_src w false (rtKnown w ms) f st [] g st1 g1 hr
+        obtain ⟨b2, hs2, e2⟩ := ih st1 st2 res2 (fun x hx => hgs x (by simp [hx])) hr2 b1
+        refine ⟨b2, ?_, e1.trans e2⟩
+        rw [hs2, hsrc]; simp
+
 /-- the result of a successful `deserModel`, with everything the theorems need -/
 theorem deserModel_spec {w : World} (h : DevOK w) (m : MId) (hir : 11 ≤ (w.model m).irVersion)
     (hcl : Closed w (w.model m)) (hU : NamesUnique w (w.model m))
@@ -1313,7 +1346,8 @@ theorem deserModel_spec {w : World} (h : DevOK w) (m : MId) (hir : 11 ≤ (w.mod
     (hd : deserModel w m = some w') :
     ∃ (st : DSt) (newm : ModelS), w' = rtFinish st.w newm ∧ DInv w (w.model m) st ∧
       newm.nodes = st.newNodes ∧ newm.cfgs = rtNewCfgs w (w.model m) ∧ newm.irVersion = (w.model m).irVersion ∧
-      st.srcNodes = allNodesF w (w.graphs.length + 1) (w.model m).graph := by
+      st.srcNodes = ((w.model m).roots.map (allNodesF w (w.graphs.length + 1))).flatten ∧
+      ∃ extra, st.w.values = w.values ++ extra := by
   have ctx : RTCtx w (w.model m) := ⟨hU, h, h.model m, hcl, hir, serModelDev_named hser hir⟩
   unfold deserModel at hd
   simp only at hd
@@ -1321,22 +1355,19 @@ theorem deserModel_spec {w : World} (h : DevOK w) (m : MId) (hir : 11 ≤ (w.mod
     have : ¬ (w.model m).irVersion < 11 := by omega
     simp [this]
   rw [hgate] at hd
-  cases hdg : deserGraphF w false (rtKnown w (w.model m)) (w.graphs.length + 1)
-      { w := rtWorld0 w (w.model m) } [] (w.model m).graph with
+  cases hdg : deserRoots w false (rtKnown w (w.model m)) (w.graphs.length + 1)
+      { w := rtWorld0 w (w.model m) } (w.model m).roots with
   | none => simp [hdg] at hd
   | some r =>
-    obtain ⟨st, g'⟩ := r
+    obtain ⟨st, gs'⟩ := r
     simp only [hdg, Option.some.injEq] at hd
     have hinit : DInv w (w.model m) { w := rtWorld0 w (w.model m) } := by
       refine ⟨?_, rfl, rfl, ⟨[], by simp [rtWorld0], by simp⟩, rfl, by simp⟩
       refine ⟨Nat.le_refl _, fun _ _ => rfl, by simp [rtWorld0], ?_⟩
       intro c hc
       simp [World.cfg, rtWorld0, List.getD_eq_getElem?_getD, List.getElem?_append_left hc]
-    have hsc0 : ScopeOK w (modelValues w (w.model m)) (rtWorld0 w (w.model m)) [] :=
-      ⟨by simp, by simp, by simp, by simp⟩
-    obtain ⟨hinv, _⟩ := deserGraphF_spec ctx _ _ _ _ _ _ hcl.1 hdg hinit hsc0
-    have hsrc := deserGraphF_src w false (rtKnown w (w.model m)) _ _ _ _ _ _ hdg
-    exact ⟨st, _, hd.symm, hinv, rfl, rfl, rfl, by simpa using hsrc⟩
+    obtain ⟨hinv, hsrc, hve⟩ := deserRoots_spec ctx _ _ _ _ _ hcl.1 hdg hinit
+    exact ⟨st, _, hd.symm, hinv, rfl, rfl, rfl, by simpa using hsrc, hve.values⟩
 
 theorem NodeRel.of_eq {w a b : World} {nd nd' : NodeS} (h : NodeRel w a nd nd')
     (hv : b.values = a.values) (hc : b.cfgs = a.cfgs) : NodeRel w b nd nd' := by
@@ -1451,7 +1482,7 @@ theorem DevOK_roundTrip {w : World} (h : DevOK w) (m : MId) (hpre : Pre w (.roun
     cases hd : deserModel w m with
     | none => exact h
     | some w' =>
-      obtain ⟨st, newm, rfl, hinv, hnn, hnc, _, _⟩ := deserModel_spec h m hir hcl hU hser hd
+      obtain ⟨st, newm, rfl, hinv, hnn, hnc, _, _, _⟩ := deserModel_spec h m hir hcl hU hser hd
       exact DevOK_rtFinish h (h.model m) hir hinv hnn hnc
 
 /-- the round trip reproduces every annotation: see `C19_roundtrip_faithful` -/
@@ -1474,7 +1505,7 @@ theorem roundTrip_faithful {w : World} (h : DevOK w) (m : MId) (hpre : Pre w (.r
     | none => simp [hd] at hok
     | some w' =>
       simp only
-      obtain ⟨st, newm, rfl, hinv, hnn, hnc, hni, hsrc⟩ := deserModel_spec h m hir hcl hU hser hd
+      obtain ⟨st, newm, rfl, hinv, hnn, hnc, hni, hsrc, _⟩ := deserModel_spec h m hir hcl hU hser hd
       have hmodel : World.model (rtFinish st.w newm) w.models.length = newm := by
         simp [World.model, rtFinish, hinv.models, List.getD_eq_getElem?_getD]
       rw [hmodel]
